@@ -184,6 +184,9 @@ Lemma W_val : W = NP + 1. Proof. reflexivity. Qed.
 (* ==== the right-hand side of a line:  Target : Event tail ==== *)
 Section Right.
 Variables (p1 tgt p2 p3 evt p4 : str).
+(* idash: the dash of an internal transition line "Source -> Source : -event ..." (empty for an external one) *)
+Variable idash : str.
+Hypothesis Hid : idash = [] \/ idash = [c_dash].
 Hypothesis (B1 : blank p1) (B2 : blank p2) (B3 : blank p3) (B4 : blank p4).
 Hypothesis (Wt : word tgt) (We : word evt).
 
@@ -192,6 +195,11 @@ Let Ce : clean evt := proj2 (proj2 We).
 Let C1 := blank_clean p1 B1. Let C2 := blank_clean p2 B2. Let C3 := blank_clean p3 B3. Let C4 := blank_clean p4 B4.
 
 Definition rhead := p1 ++ tgt ++ p2.
+(* the target field: an internal line has none *)
+Definition itgt : str := match idash with [] => tgt | _ => [] end.
+
+Lemma idash_dashes : dashes idash.
+Proof. destruct Hid as [Hi|Hi]; rewrite Hi; repeat constructor. Qed.
 
 Lemma target_tok rest : size (rhead ++ c_colon :: rest) < npos -> cleanup_token rhead = tgt.
 Proof.
@@ -223,70 +231,108 @@ Proof.
   apply cleanup_tok; auto using blank_pad. autorewrite with sz. lia.
 Qed.
 
-Definition M : N := size rhead + 1 + size p3 + size evt + size p4.
+Definition M : N := size rhead + 1 + size p3 + size idash + size evt + size p4.
 
-(* Target : Event *)
-Lemma prr_none : let part := rhead ++ c_colon :: p3 ++ evt ++ p4 in
-  size part < npos -> parse_row_right part = Transition [] tgt evt [] [].
+(* where the dash of an internal line is found, and that it is not found in an external one *)
+Lemma find_idash part rest : part = rhead ++ c_colon :: p3 ++ idash ++ evt ++ p4 ++ rest -> hasb c_dash rest = false ->
+  find [c_dash] part = match idash with [] => npos | _ => size rhead + 1 + size p3 end.
 Proof.
-  intros part Hsz. pose proof npos_val as Hn. pose proof W_val as HW.
+  intros Hp Hr. destruct Hid as [Hi|Hi]; rewrite Hi in *; cbn [app] in Hp.
+  - apply find1_none. rewrite Hp. unfold rhead. nos.
+  - rewrite (find1_at c_dash part (rhead ++ c_colon :: p3) (evt ++ p4 ++ rest)) by (try (rewrite Hp; la); unfold rhead; nos).
+    autorewrite with sz. lia.
+Qed.
+
+(* Target : Event     /     Source : -Event *)
+Lemma prr_none : let part := rhead ++ c_colon :: p3 ++ idash ++ evt ++ p4 in
+  size part < npos -> parse_row_right part = Transition [] itgt evt [] [].
+Proof.
+  intros part Hsz. pose proof npos_val as Hn. pose proof W_val as HW. pose proof idash_dashes as Did.
+  assert (Hp : part = rhead ++ c_colon :: p3 ++ idash ++ evt ++ p4 ++ []) by (unfold part; rewrite app_nil_r; reflexivity).
   assert (Ee : find [c_colon] part = size rhead) by (eapply find1_at; [reflexivity | unfold rhead; nos]).
   assert (Ea : find [c_slash] part = npos) by (apply find1_none; unfold part, rhead; nos).
   assert (Eg : find [c_lbr] part = npos) by (apply find1_none; unfold part, rhead; nos).
-  assert (Ei : find [c_dash] part = npos) by (apply find1_none; unfold part, rhead; nos).
-  assert (Hs : size part = size rhead + 1 + size p3 + size evt + size p4) by (unfold part; autorewrite with sz; lia).
+  pose proof (find_idash part [] Hp eq_refl) as Ei. clear Hp.
+  assert (Hs : size part = M) by (unfold part, M; autorewrite with sz; lia).
   pose proof Wt as (S1 & E1 & _). pose proof We as (S2 & E2 & _).
   assert (Eguard : parse_guards (cleanup_token part) = []).
-  { rewrite (cleanup_body part p1 (tgt ++ p2 ++ c_colon :: p3 ++ evt) p4)
+  { rewrite (cleanup_body part p1 (tgt ++ p2 ++ c_colon :: p3 ++ idash ++ evt) p4)
       by (try tok; unfold part, rhead; la).
     apply pg_none. nos. }
-  unfold parse_row_right. rewrite Eguard. rewrite Ee, Ea, Eg, Ei. rewrite Hn in *. nb. cbn [negb andb].
-  rewrite (substr_split part [] rhead (c_colon :: p3 ++ evt ++ p4) 0 (size rhead)) by (reflexivity || la).
-  rewrite (target_tok (p3 ++ evt ++ p4)) by (fold part; lia).
-  rewrite wadd_small by lia.
-  unfold substr_from. rewrite (substr_rest part (rhead ++ [c_colon]) (p3 ++ evt ++ p4) (size rhead + 1) npos)
-    by (try (unfold part; la); autorewrite with sz; lia).
-  rewrite (cleanup_tok p3 evt p4) by (auto using blank_pad; autorewrite with sz; lia).
-  reflexivity.
+  unfold parse_row_right. rewrite Eguard. rewrite Ee, Ea, Eg, Ei. unfold itgt, M in *.
+  destruct Hid as [Hi|Hi]; rewrite Hi in *; autorewrite with sz in Hs; rewrite Hn in *; nb; cbn [negb andb].
+  - assert (Hp1 : part = rhead ++ c_colon :: p3 ++ evt ++ p4) by (unfold part; rewrite Hi; reflexivity).
+    clearbody part. subst part.
+    rewrite (substr_split _ [] rhead (c_colon :: p3 ++ evt ++ p4) 0 (size rhead)) by (reflexivity || la).
+    rewrite (target_tok (p3 ++ evt ++ p4)) by (rewrite Hn; lia).
+    rewrite wadd_small by lia.
+    unfold substr_from. rewrite (substr_rest _ (rhead ++ [c_colon]) (p3 ++ evt ++ p4) (size rhead + 1) NP)
+      by (try la; autorewrite with sz; lia).
+    rewrite (cleanup_tok p3 evt p4) by (auto using blank_pad; autorewrite with sz; rewrite Hn; lia).
+    reflexivity.
+  - assert (Hp1 : part = rhead ++ c_colon :: p3 ++ c_dash :: evt ++ p4) by (unfold part; rewrite Hi; reflexivity).
+    clearbody part. subst part.
+    rewrite wadd_small by lia.
+    unfold substr_from. rewrite (substr_rest _ (rhead ++ c_colon :: p3 ++ [c_dash]) (evt ++ p4) (size rhead + 1 + size p3 + 1) NP)
+      by (try la; autorewrite with sz; lia).
+    change (evt ++ p4) with ([] ++ evt ++ p4).
+    rewrite (cleanup_tok [] evt p4) by (try constructor; auto using blank_pad; autorewrite with sz; rewrite Hn; lia).
+    reflexivity.
 Qed.
 
-(* Target : Event tail, the tail starting with '/' or '[' : target and event, the other two fields as expressions *)
-Lemma prr_common tailtext A G : let part := rhead ++ c_colon :: p3 ++ evt ++ p4 ++ tailtext in
+(* ... followed by a tail that starts with '/' or '[' : target and event, the other two fields as expressions *)
+Lemma prr_common tailtext A G : let part := rhead ++ c_colon :: p3 ++ idash ++ evt ++ p4 ++ tailtext in
   size part < npos -> hasb c_dash tailtext = false -> hasb c_colon tailtext = false ->
   find [c_slash] part = A -> find [c_lbr] part = G -> N.min A G = M ->
   parse_row_right part =
-  Transition [] tgt evt (parse_guards (cleanup_token part))
+  Transition [] itgt evt (parse_guards (cleanup_token part))
     (if negb (A =? npos) && negb (G =? npos) then cleanup_token (substr part (wadd A 1) (wsub (wsub G 1) A))
      else if negb (A =? npos) then cleanup_token (substr_from part (wadd A 1)) else []).
 Proof.
-  intros part Hsz Hd Hc Ea Eg Hmin. pose proof npos_val as Hn. pose proof W_val as HW.
+  intros part Hsz Hd Hc Ea Eg Hmin. pose proof npos_val as Hn. pose proof W_val as HW. pose proof idash_dashes as Did.
   assert (Ee : find [c_colon] part = size rhead) by (eapply find1_at; [reflexivity | unfold rhead; nos]).
-  assert (Ei : find [c_dash] part = npos).
-  { apply find1_none. unfold part, rhead. repeat (rewrite hasb_app || (progress (cbn [hasb]))). rewrite Hd.
-    repeat rewrite clean_hasb by (assumption || reflexivity). reflexivity. }
+  pose proof (find_idash part tailtext eq_refl Hd) as Ei.
   assert (Hs : size part = M + size tailtext) by (unfold part, M; autorewrite with sz; lia).
   pose proof Wt as (S1 & E1 & _). pose proof We as (S2 & E2 & _).
-  unfold parse_row_right. rewrite Ee, Ea, Eg, Ei.
-  replace (negb (npos =? npos)) with false by reflexivity. cbn [andb negb].
-  replace (npos =? npos) with true by reflexivity.
-  replace (size rhead =? npos) with false by (symmetry; apply N.eqb_neq; unfold M in *; lia). cbn [negb andb].
-  rewrite (substr_split part [] rhead (c_colon :: p3 ++ evt ++ p4 ++ tailtext) 0 (size rhead)) by (reflexivity || la).
-  rewrite (target_tok (p3 ++ evt ++ p4 ++ tailtext)) by (fold part; lia).
-  f_equal.
+  assert (Hev : 1 <= size evt) by (destruct evt; [contradiction | autorewrite with sz; lia]).
   assert (HA : (A =? npos) && (G =? npos) = false).
   { destruct (A =? npos) eqn:X1; destruct (G =? npos) eqn:X2; try reflexivity.
     apply N.eqb_eq in X1, X2. unfold M in *. lia. }
-  rewrite HA. rewrite Hmin. unfold M in *.
-  rewrite (wadd_small 1) by lia. rewrite (wadd_small (size rhead) 1) by lia.
-  replace (1 + size rhead <? size rhead + 1 + size p3 + size evt + size p4) with true
-    by (symmetry; apply N.ltb_lt; pose proof S2; destruct evt; [contradiction|]; autorewrite with sz; lia).
-  rewrite (wsub_small (size rhead + 1 + size p3 + size evt + size p4) 1) by lia.
-  rewrite wsub_small by lia.
-  rewrite (substr_split part (rhead ++ [c_colon]) (p3 ++ evt ++ p4) tailtext)
-    by (try (unfold part; la); autorewrite with sz; lia).
-  apply cleanup_tok; auto using blank_pad. autorewrite with sz. lia.
+  unfold parse_row_right. rewrite Ee, Ea, Eg, Ei, HA, Hmin. unfold itgt, M in *.
+  destruct Hid as [Hi|Hi]; rewrite Hi in *; autorewrite with sz in Hs, Hmin |- *.
+  - assert (Hp1 : part = rhead ++ c_colon :: p3 ++ evt ++ p4 ++ tailtext) by (unfold part; rewrite Hi; reflexivity).
+    clearbody part. subst part.
+    replace (negb (npos =? npos)) with false by reflexivity. cbn [andb negb].
+    replace (npos =? npos) with true by reflexivity.
+    replace (size rhead =? npos) with false by (symmetry; apply N.eqb_neq; lia). cbn [negb andb].
+    rewrite (substr_split _ [] rhead (c_colon :: p3 ++ evt ++ p4 ++ tailtext) 0 (size rhead)) by (reflexivity || la).
+    rewrite (target_tok (p3 ++ evt ++ p4 ++ tailtext)) by lia.
+    f_equal.
+    rewrite (wadd_small 1) by lia. rewrite (wadd_small (size rhead) 1) by lia.
+    replace (1 + size rhead <? size rhead + 1 + size p3 + 0 + size evt + size p4) with true by (symmetry; apply N.ltb_lt; lia).
+    rewrite (wsub_small _ 1) by lia. rewrite wsub_small by lia.
+    rewrite (substr_split _ (rhead ++ [c_colon]) (p3 ++ evt ++ p4) tailtext)
+      by (try la; autorewrite with sz; lia).
+    apply cleanup_tok; auto using blank_pad. autorewrite with sz. lia.
+  - assert (Hp1 : part = rhead ++ c_colon :: p3 ++ c_dash :: evt ++ p4 ++ tailtext) by (unfold part; rewrite Hi; reflexivity).
+    clearbody part. subst part.
+    assert (HAM : size rhead + 1 + size p3 <= A /\ size rhead + 1 + size p3 <= G) by lia. destruct HAM as [HA1 HG1].
+    replace (size rhead + 1 + size p3 =? npos) with false by (symmetry; apply N.eqb_neq; lia).
+    replace (size rhead <? size rhead + 1 + size p3) with true by (symmetry; apply N.ltb_lt; lia).
+    replace (size rhead + 1 + size p3 <=? A) with true by (symmetry; apply N.leb_le; lia).
+    replace (size rhead + 1 + size p3 <=? G) with true by (symmetry; apply N.leb_le; lia).
+    cbn [negb andb].
+    replace (size rhead =? npos) with false by (symmetry; apply N.eqb_neq; lia). cbn [negb andb].
+    f_equal.
+    rewrite (wadd_small 1) by lia. rewrite (wadd_small _ 1) by lia.
+    replace (1 + (size rhead + 1 + size p3) <? size rhead + 1 + size p3 + (1 + 0) + size evt + size p4) with true
+      by (symmetry; apply N.ltb_lt; lia).
+    rewrite (wsub_small _ 1) by lia. rewrite wsub_small by lia.
+    rewrite (substr_split _ (rhead ++ c_colon :: p3 ++ [c_dash]) (evt ++ p4) tailtext)
+      by (try la; autorewrite with sz; lia).
+    change (evt ++ p4) with ([] ++ evt ++ p4).
+    apply cleanup_tok; try constructor; auto using blank_pad. autorewrite with sz. lia.
 Qed.
-
 
 (* ---- the four tails ---- *)
 Variables (p5 p6 p7 p8 p9 act g : str).
@@ -297,18 +343,18 @@ Let Cg : clean g := proj2 (proj2 Wg).
 Let C5 := blank_clean p5 B5. Let C6 := blank_clean p6 B6. Let C7 := blank_clean p7 B7.
 Let C8 := blank_clean p8 B8. Let C9 := blank_clean p9 B9.
 
-Definition lhead := rhead ++ c_colon :: p3 ++ evt ++ p4.
+Definition lhead := rhead ++ c_colon :: p3 ++ idash ++ evt ++ p4.
 Lemma lhead_size : size lhead = M.
 Proof. unfold lhead, M. autorewrite with sz. lia. Qed.
 Ltac tok2 := first [ tok | (unfold M, lhead, rhead in *; autorewrite with sz in *; lia) ].
 
 (* Target : Event / Actions *)
 Lemma prr_act : let part := lhead ++ c_slash :: p5 ++ act ++ p6 in
-  size part < npos -> parse_row_right part = Transition [] tgt evt [] act.
+  size part < npos -> parse_row_right part = Transition [] itgt evt [] act.
 Proof.
-  intros part Hsz. pose proof npos_val as Hn. pose proof W_val as HW. pose proof lhead_size as HM.
+  intros part Hsz. pose proof npos_val as Hn. pose proof W_val as HW. pose proof lhead_size as HM. pose proof idash_dashes as Did.
   pose proof Wt as (S1 & E1 & _). pose proof Wa as (S3 & E3 & _).
-  assert (Hp : part = rhead ++ c_colon :: p3 ++ evt ++ p4 ++ c_slash :: p5 ++ act ++ p6) by (unfold part, lhead; la).
+  assert (Hp : part = rhead ++ c_colon :: p3 ++ idash ++ evt ++ p4 ++ c_slash :: p5 ++ act ++ p6) by (unfold part, lhead; la).
   assert (Hs : size part = M + 1 + size p5 + size act + size p6) by (unfold part; autorewrite with sz; lia).
   assert (Ea : find [c_slash] part = M).
   { rewrite <- HM. eapply find1_at; [reflexivity | unfold lhead, rhead; nos]. }
@@ -317,7 +363,7 @@ Proof.
   2:{ rewrite Hn. lia. }
   replace (M =? npos) with false by (symmetry; apply N.eqb_neq; lia).
   replace (npos =? npos) with true by reflexivity. cbn [negb andb]. f_equal.
-  - rewrite (cleanup_body part p1 (tgt ++ p2 ++ c_colon :: p3 ++ evt ++ p4 ++ c_slash :: p5 ++ act) p6)
+  - rewrite (cleanup_body part p1 (tgt ++ p2 ++ c_colon :: p3 ++ idash ++ evt ++ p4 ++ c_slash :: p5 ++ act) p6)
       by (try tok; rewrite Hp; unfold rhead; la).
     apply pg_none. nos.
   - rewrite wadd_small by lia. unfold substr_from.
@@ -328,11 +374,11 @@ Qed.
 
 (* Target : Event [Guard] *)
 Lemma prr_guard : let part := lhead ++ c_lbr :: p5 ++ g ++ p6 ++ c_rbr :: p7 in
-  size part < npos -> parse_row_right part = Transition [] tgt evt g [].
+  size part < npos -> parse_row_right part = Transition [] itgt evt g [].
 Proof.
-  intros part Hsz. pose proof npos_val as Hn. pose proof W_val as HW. pose proof lhead_size as HM.
+  intros part Hsz. pose proof npos_val as Hn. pose proof W_val as HW. pose proof lhead_size as HM. pose proof idash_dashes as Did.
   pose proof Wt as (S1 & E1 & _). pose proof Wg as (S3 & E3 & _).
-  assert (Hp : part = rhead ++ c_colon :: p3 ++ evt ++ p4 ++ c_lbr :: p5 ++ g ++ p6 ++ c_rbr :: p7) by (unfold part, lhead; la).
+  assert (Hp : part = rhead ++ c_colon :: p3 ++ idash ++ evt ++ p4 ++ c_lbr :: p5 ++ g ++ p6 ++ c_rbr :: p7) by (unfold part, lhead; la).
   assert (Hs : size part = M + 1 + size p5 + size g + size p6 + 1 + size p7) by (unfold part; autorewrite with sz; lia).
   assert (Eg : find [c_lbr] part = M).
   { rewrite <- HM. eapply find1_at; [reflexivity | unfold lhead, rhead; nos]. }
@@ -340,18 +386,18 @@ Proof.
   rewrite Hp. rewrite (prr_common (c_lbr :: p5 ++ g ++ p6 ++ c_rbr :: p7) npos M); rewrite <- ?Hp; try nos; try assumption.
   2:{ rewrite Hn. lia. }
   replace (npos =? npos) with true by reflexivity. cbn [negb andb]. f_equal.
-  rewrite (cleanup_body part p1 (tgt ++ p2 ++ c_colon :: p3 ++ evt ++ p4 ++ c_lbr :: p5 ++ g ++ p6 ++ [c_rbr]) p7)
+  rewrite (cleanup_body part p1 (tgt ++ p2 ++ c_colon :: p3 ++ idash ++ evt ++ p4 ++ c_lbr :: p5 ++ g ++ p6 ++ [c_rbr]) p7)
     by (try tok; rewrite Hp; unfold rhead; la).
-  apply (pg_some _ (tgt ++ p2 ++ c_colon :: p3 ++ evt ++ p4) p5 g p6 []); try tok2; try nos; try la.
+  apply (pg_some _ (tgt ++ p2 ++ c_colon :: p3 ++ idash ++ evt ++ p4) p5 g p6 []); try tok2; try nos; try la.
 Qed.
 
 (* Target : Event / Actions [Guard] *)
 Lemma prr_act_guard : let part := lhead ++ c_slash :: p5 ++ act ++ p6 ++ c_lbr :: p7 ++ g ++ p8 ++ c_rbr :: p9 in
-  size part < npos -> parse_row_right part = Transition [] tgt evt g act.
+  size part < npos -> parse_row_right part = Transition [] itgt evt g act.
 Proof.
-  intros part Hsz. pose proof npos_val as Hn. pose proof W_val as HW. pose proof lhead_size as HM.
+  intros part Hsz. pose proof npos_val as Hn. pose proof W_val as HW. pose proof lhead_size as HM. pose proof idash_dashes as Did.
   pose proof Wt as (S1 & E1 & _). pose proof Wg as (S3 & E3 & _). pose proof Wa as (S4 & E4 & _).
-  assert (Hp : part = rhead ++ c_colon :: p3 ++ evt ++ p4 ++ c_slash :: p5 ++ act ++ p6 ++ c_lbr :: p7 ++ g ++ p8 ++ c_rbr :: p9)
+  assert (Hp : part = rhead ++ c_colon :: p3 ++ idash ++ evt ++ p4 ++ c_slash :: p5 ++ act ++ p6 ++ c_lbr :: p7 ++ g ++ p8 ++ c_rbr :: p9)
     by (unfold part, lhead; la).
   assert (Hs : size part = M + 1 + size p5 + size act + size p6 + 1 + size p7 + size g + size p8 + 1 + size p9)
     by (unfold part; autorewrite with sz; lia).
@@ -369,9 +415,9 @@ Proof.
   replace (M + 1 + size p5 + size act + size p6 =? npos) with false by (symmetry; apply N.eqb_neq; lia).
   cbn [negb andb]. f_equal.
   - rewrite (cleanup_body part p1
-               (tgt ++ p2 ++ c_colon :: p3 ++ evt ++ p4 ++ c_slash :: p5 ++ act ++ p6 ++ c_lbr :: p7 ++ g ++ p8 ++ [c_rbr]) p9)
+               (tgt ++ p2 ++ c_colon :: p3 ++ idash ++ evt ++ p4 ++ c_slash :: p5 ++ act ++ p6 ++ c_lbr :: p7 ++ g ++ p8 ++ [c_rbr]) p9)
       by (try tok; rewrite Hp; unfold rhead; la).
-    apply (pg_some _ (tgt ++ p2 ++ c_colon :: p3 ++ evt ++ p4 ++ c_slash :: p5 ++ act ++ p6) p7 g p8 []);
+    apply (pg_some _ (tgt ++ p2 ++ c_colon :: p3 ++ idash ++ evt ++ p4 ++ c_slash :: p5 ++ act ++ p6) p7 g p8 []);
       try tok2; try nos; try la.
   - rewrite wadd_small by lia. rewrite (wsub_small _ 1) by lia. rewrite wsub_small by lia.
     rewrite (substr_split part (lhead ++ [c_slash]) (p5 ++ act ++ p6) (c_lbr :: p7 ++ g ++ p8 ++ c_rbr :: p9))
@@ -381,11 +427,11 @@ Qed.
 
 (* Target : Event [Guard] / Actions *)
 Lemma prr_guard_act : let part := lhead ++ c_lbr :: p5 ++ g ++ p6 ++ c_rbr :: p7 ++ c_slash :: p8 ++ act ++ p9 in
-  size part < npos -> parse_row_right part = Transition [] tgt evt g act.
+  size part < npos -> parse_row_right part = Transition [] itgt evt g act.
 Proof.
-  intros part Hsz. pose proof npos_val as Hn. pose proof W_val as HW. pose proof lhead_size as HM.
+  intros part Hsz. pose proof npos_val as Hn. pose proof W_val as HW. pose proof lhead_size as HM. pose proof idash_dashes as Did.
   pose proof Wt as (S1 & E1 & _). pose proof Wg as (S3 & E3 & _). pose proof Wa as (S4 & E4 & _).
-  assert (Hp : part = rhead ++ c_colon :: p3 ++ evt ++ p4 ++ c_lbr :: p5 ++ g ++ p6 ++ c_rbr :: p7 ++ c_slash :: p8 ++ act ++ p9)
+  assert (Hp : part = rhead ++ c_colon :: p3 ++ idash ++ evt ++ p4 ++ c_lbr :: p5 ++ g ++ p6 ++ c_rbr :: p7 ++ c_slash :: p8 ++ act ++ p9)
     by (unfold part, lhead; la).
   assert (Hs : size part = M + 1 + size p5 + size g + size p6 + 1 + size p7 + 1 + size p8 + size act + size p9)
     by (unfold part; autorewrite with sz; lia).
@@ -404,9 +450,9 @@ Proof.
   replace (M + 1 + size p5 + size g + size p6 + 1 + size p7 =? npos) with false by (symmetry; apply N.eqb_neq; lia).
   cbn [negb andb]. f_equal.
   - rewrite (cleanup_body part p1
-               (tgt ++ p2 ++ c_colon :: p3 ++ evt ++ p4 ++ c_lbr :: p5 ++ g ++ p6 ++ c_rbr :: p7 ++ c_slash :: p8 ++ act) p9)
+               (tgt ++ p2 ++ c_colon :: p3 ++ idash ++ evt ++ p4 ++ c_lbr :: p5 ++ g ++ p6 ++ c_rbr :: p7 ++ c_slash :: p8 ++ act) p9)
       by (try tok; rewrite Hp; unfold rhead; la).
-    apply (pg_some _ (tgt ++ p2 ++ c_colon :: p3 ++ evt ++ p4) p5 g p6 (p7 ++ c_slash :: p8 ++ act));
+    apply (pg_some _ (tgt ++ p2 ++ c_colon :: p3 ++ idash ++ evt ++ p4) p5 g p6 (p7 ++ c_slash :: p8 ++ act));
       try tok2; try nos; try la.
   - rewrite wadd_small by lia. rewrite (wsub_small _ 1) by (unfold M in *; lia). rewrite wsub_wrap by lia.
     rewrite (substr_rest part (lhead ++ c_lbr :: p5 ++ g ++ p6 ++ c_rbr :: p7 ++ [c_slash]) (p8 ++ act ++ p9))
@@ -512,58 +558,60 @@ Definition wf_tail (t:tail) : Prop :=
   | TGuardAct p5 g p6 p7 p8 a p9 => blank p5 /\ word g /\ blank p6 /\ blank p7 /\ blank p8 /\ word a /\ blank p9
   end.
 
-(* lead Source b0 d-> p1 Target p2 [ : p3 Event p4 tail ] *)
+(* lead Source b0 d-> p1 Target p2 [ : p3 [-]Event p4 tail ]      (idash = "-" marks an internal transition line) *)
 Record pline := PLine { l_lead : str; l_src : str; l_b0 : str; l_d : str; l_p1 : str; l_tgt : str; l_p2 : str;
-                        l_ev : option (str * str * str * tail) }.
+                        l_ev : option (str * str * str * str * tail) }.
 Definition render (l:pline) : str :=
   l_lead l ++ l_src l ++ l_b0 l ++ l_d l ++ c_dash :: c_gt :: l_p1 l ++ l_tgt l ++ l_p2 l ++
   match l_ev l with
   | None => []
-  | Some (p3, evt, p4, t) => c_colon :: p3 ++ evt ++ p4 ++ render_tail t
+  | Some (p3, idash, evt, p4, t) => c_colon :: p3 ++ idash ++ evt ++ p4 ++ render_tail t
   end.
 Definition fields (l:pline) : transition :=
   match l_ev l with
   | None => Transition (l_src l) (l_tgt l) [] [] []
-  | Some (_, evt, _, t) => Transition (l_src l) (l_tgt l) evt (tail_guard t) (tail_action t)
+  | Some (_, idash, evt, _, t) =>
+      Transition (l_src l) (match idash with [] => l_tgt l | _ => [] end) evt (tail_guard t) (tail_action t)
   end.
 Definition wf_line (l:pline) : Prop :=
   blank (l_lead l) /\ word (l_src l) /\ blank (l_b0 l) /\ dashes (l_d l) /\ blank (l_p1 l) /\ word (l_tgt l) /\ blank (l_p2 l) /\
   match l_ev l with
   | None => True
-  | Some (p3, evt, p4, t) => blank p3 /\ word evt /\ blank p4 /\ wf_tail t
+  | Some (p3, idash, evt, p4, t) => blank p3 /\ (idash = [] \/ idash = [c_dash]) /\ word evt /\ blank p4 /\ wf_tail t
   end.
 
 Theorem parse_row_exact l : wf_line l -> size (render l) < npos -> parse_row (render l) = fields l.
 Proof.
   destruct l as [lead src b0 d p1 tgt p2 ev]. unfold wf_line, render, fields. cbn [l_lead l_src l_b0 l_d l_p1 l_tgt l_p2 l_ev].
   intros (Bl & Ws & B0 & Dd & B1 & Wt & B2 & Hev) Hsz.
-  destruct ev as [[[[p3 evt] p4] t]|].
+  destruct ev as [[[[[p3 idash] evt] p4] t]|].
   2:{ rewrite app_nil_r in *. apply (parse_row_plain lead src b0 d Bl Ws B0 Dd p1 tgt p2 B1 B2 Wt). exact Hsz. }
-  destruct Hev as (B3 & We & B4 & Ht).
-  set (right := p1 ++ tgt ++ p2 ++ c_colon :: p3 ++ evt ++ p4 ++ render_tail t) in *.
+  destruct Hev as (B3 & Hid & We & B4 & Ht).
+  set (right := p1 ++ tgt ++ p2 ++ c_colon :: p3 ++ idash ++ evt ++ p4 ++ render_tail t) in *.
   change (lead ++ src ++ b0 ++ d ++ c_dash :: c_gt :: right) with (lineof lead src b0 d right) in *.
   rewrite (parse_row_with_event lead src b0 d Bl Ws B0 Dd right Hsz).
   2:{ unfold right. rewrite !hasb_app. cbn [hasb]. rewrite Nat.eqb_refl. cbn [orb]. rewrite !Bool.orb_true_r. reflexivity. }
   assert (Hr : size right < npos) by (unfold lineof in Hsz; autorewrite with sz in Hsz; lia).
   cbv zeta.
-  assert (E : parse_row_right right = Transition [] tgt evt (tail_guard t) (tail_action t)); [|rewrite E; reflexivity].
+  assert (E : parse_row_right right = Transition [] (itgt tgt idash) evt (tail_guard t) (tail_action t));
+    [|rewrite E; reflexivity].
   destruct t as [|p5 a p6|p5 g p6 p7|p5 a p6 p7 g p8 p9|p5 g p6 p7 p8 a p9]; cbn [render_tail tail_guard tail_action wf_tail] in *.
-  - replace right with (rhead p1 tgt p2 ++ c_colon :: p3 ++ evt ++ p4) in * by (unfold right, rhead; rewrite app_nil_r; la).
-    apply (prr_none p1 tgt p2 p3 evt p4); assumption.
+  - replace right with (rhead p1 tgt p2 ++ c_colon :: p3 ++ idash ++ evt ++ p4) in * by (unfold right, rhead; rewrite app_nil_r; la).
+    apply (prr_none p1 tgt p2 p3 evt p4 idash); assumption.
   - destruct Ht as (B5 & Wa & B6).
-    replace right with (lhead p1 tgt p2 p3 evt p4 ++ c_slash :: p5 ++ a ++ p6) in * by (unfold right, lhead, rhead; la).
-    apply (prr_act p1 tgt p2 p3 evt p4); assumption.
+    replace right with (lhead p1 tgt p2 p3 evt p4 idash ++ c_slash :: p5 ++ a ++ p6) in * by (unfold right, lhead, rhead; la).
+    apply (prr_act p1 tgt p2 p3 evt p4 idash); assumption.
   - destruct Ht as (B5 & Wg & B6 & B7).
-    replace right with (lhead p1 tgt p2 p3 evt p4 ++ c_lbr :: p5 ++ g ++ p6 ++ c_rbr :: p7) in * by (unfold right, lhead, rhead; la).
-    apply (prr_guard p1 tgt p2 p3 evt p4); assumption.
+    replace right with (lhead p1 tgt p2 p3 evt p4 idash ++ c_lbr :: p5 ++ g ++ p6 ++ c_rbr :: p7) in * by (unfold right, lhead, rhead; la).
+    apply (prr_guard p1 tgt p2 p3 evt p4 idash); assumption.
   - destruct Ht as (B5 & Wa & B6 & B7 & Wg & B8 & B9).
-    replace right with (lhead p1 tgt p2 p3 evt p4 ++ c_slash :: p5 ++ a ++ p6 ++ c_lbr :: p7 ++ g ++ p8 ++ c_rbr :: p9) in *
+    replace right with (lhead p1 tgt p2 p3 evt p4 idash ++ c_slash :: p5 ++ a ++ p6 ++ c_lbr :: p7 ++ g ++ p8 ++ c_rbr :: p9) in *
       by (unfold right, lhead, rhead; la).
-    apply (prr_act_guard p1 tgt p2 p3 evt p4); assumption.
+    apply (prr_act_guard p1 tgt p2 p3 evt p4 idash); assumption.
   - destruct Ht as (B5 & Wg & B6 & B7 & B8 & Wa & B9).
-    replace right with (lhead p1 tgt p2 p3 evt p4 ++ c_lbr :: p5 ++ g ++ p6 ++ c_rbr :: p7 ++ c_slash :: p8 ++ a ++ p9) in *
+    replace right with (lhead p1 tgt p2 p3 evt p4 idash ++ c_lbr :: p5 ++ g ++ p6 ++ c_rbr :: p7 ++ c_slash :: p8 ++ a ++ p9) in *
       by (unfold right, lhead, rhead; la).
-    apply (prr_guard_act p1 tgt p2 p3 evt p4); assumption.
+    apply (prr_guard_act p1 tgt p2 p3 evt p4 idash); assumption.
 Qed.
 
 (* the hypotheses are met by an ordinary line, with a Kleene event, an action list and a guard expression:
@@ -572,7 +620,7 @@ Local Close Scope N_scope.
 Local Open Scope nat_scope.
 Definition ex_line : pline :=
   PLine [32;32] [80;108;97;121;105;110;103] [32;32;32] [45;45] [32;32] [80;97;117;115;101;100] [32]
-        (Some ([32], [42], [32], TActGuard [32] [108;111;103;44;32;115;116;111;112] [32;32;32] [32] [33;105;115;95;108;97;115;116;32;38;38;32;111;107] [32] [32;32])).
+        (Some ([32], [], [42], [32], TActGuard [32] [108;111;103;44;32;115;116;111;112] [32;32;32] [32] [33;105;115;95;108;97;115;116;32;38;38;32;111;107] [32] [32;32])).
 Example ex_line_ok : wf_line ex_line /\ (size (render ex_line) < npos)%N /\
   parse_row (render ex_line) = Transition [80;108;97;121;105;110;103] [80;97;117;115;101;100] [42]
                                           [33;105;115;95;108;97;115;116;32;38;38;32;111;107] [108;111;103;44;32;115;116;111;112].
